@@ -28,6 +28,7 @@ static inline void %(s)s_push_back(%(s)s *v, char *x) { __CPROVER_assert(v->n < 
 static inline char *%(s)s_at(%(s)s *v, unsigned long i) { if (i >= v->n) { __verif_exc = %(OOR)s; return v->b; } return v->b + i; }
 static inline void %(s)s_resize(%(s)s *v, unsigned long n) { unsigned long i; __CPROVER_assert(n <= %(CAP)d, "BOUND string longer than the bounded model's capacity"); for (i = v->n; i < n; i++) v->b[i] = 0; v->n = n; }
 static unsigned long %(s)s_find_last_of_c(%(s)s *v, char c) { unsigned long i = v->n; while (i > 0) { --i; if (v->b[i] == c) return i; } return (unsigned long)-1; }
+static unsigned long %(s)s_find_first_of_c(%(s)s *v, char c) { unsigned long i = 0; while (i < v->n) { if (v->b[i] == c) return i; ++i; } return (unsigned long)-1; }
 static unsigned long %(s)s_find_last_of_c_pos(%(s)s *v, char c, unsigned long pos) { unsigned long i = (v->n == 0) ? 0 : (pos < v->n - 1 ? pos + 1 : v->n); while (i > 0) { --i; if (v->b[i] == c) return i; } return (unsigned long)-1; }
 static unsigned long %(s)s_find_c(%(s)s *v, char c, unsigned long pos) { unsigned long i; for (i = pos; i < v->n; i++) if (v->b[i] == c) return i; return (unsigned long)-1; }
 static unsigned long %(s)s_find_buf(%(s)s *v, const char *p, unsigned long m, unsigned long pos)
@@ -821,6 +822,8 @@ static inline void verif_lock_guard_dtor(std_lock_guard_std_mutex *g) { g->m->g_
                 real = [a for a in args if a.get("kind") != "CXXDefaultArgExpr"]
                 if m == "find_last_of" and len(real) == 1 and tr.ety(real[0]).noref().kind == "builtin":
                     return X("call", s + "_find_last_of_c", [addr(o), tr.rv(real[0])], ty=UL)
+                if m in ("find_first_of", "find") and len(real) == 1 and tr.ety(real[0]).noref().kind == "builtin":
+                    return X("call", s + "_find_first_of_c", [addr(o), tr.rv(real[0])], ty=UL)
                 if m == "find_last_of" and len(real) == 2 and tr.ety(real[0]).noref().kind == "builtin":
                     # find_last_of(c, pos): the last occurrence at an index <= pos (pos == npos: the whole string)
                     return X("call", s + "_find_last_of_c_pos", [addr(o), tr.rv(real[0]), tr.rv(real[1])], ty=UL)
